@@ -1,18 +1,1337 @@
-//! C03 — (stub, under construction)
+//! C03 — results depend only on the arguments, not on earlier calls.
+//!
+//! History monitor with a fresh-object model: a random history of 2-40 operations over a small
+//! pool of scripts / languages / feature sets / tuples / texts is run on ONE long-lived
+//! `allsorts::Font`; every operation's result (rendered canonically) is compared with the same call
+//! on a `Font` created from the same bytes for that single call. Pure operations (subset,
+//! whole_font, prince subset, instance, WOFF/WOFF2 table decoding, preprocess_text) are repeated
+//! in-process and compared byte for byte (see c03_pure.rs).
+
+#[path = "c03_gen.rs"]
+pub mod c03_gen;
+#[path = "c03_outline.rs"]
+pub mod c03_outline;
+#[path = "c03_pure.rs"]
+pub mod c03_pure;
 
 use super::Prop;
 use crate::rt::*;
+use crate::sfnt::{be16, tag, tag_str};
+use allsorts::binary::read::ReadScope;
+use allsorts::bitmap::{BitDepth, Bitmap, BitmapGlyph};
+use allsorts::font::{Font, MatchingPresentation};
+use allsorts::font_data::{DynamicFontTableProvider, FontData};
+use allsorts::glyph_position::{GlyphLayout, TextDirection};
+use allsorts::gpos::Info;
+use allsorts::gsub::{FeatureInfo, FeatureMask, Features, RawGlyph};
+use allsorts::tables::variable_fonts::avar::AvarTable;
+use allsorts::tables::variable_fonts::fvar::{FvarTable, OwnedTuple};
+use allsorts::tables::{F2Dot14, Fixed, FontTableProvider};
+use allsorts::unicode::VariationSelector;
+use c03_gen::GenFont;
+use std::cell::RefCell;
+use std::collections::{BTreeMap, HashMap};
+use std::panic::{self, AssertUnwindSafe};
 
-pub struct C03 {}
+pub type AFont<'a> = Font<DynamicFontTableProvider<'a>>;
+
+pub fn load_font(bytes: &[u8]) -> Option<AFont<'_>> {
+    let fd = ReadScope::new(bytes).read::<FontData<'_>>().ok()?;
+    let p = fd.table_provider(0).ok()?;
+    Font::new(p).ok()
+}
+
+// ---- operations ---------------------------------------------------------------------------------
+
+#[derive(Clone, Debug, PartialEq)]
+pub enum Feat {
+    Mask(u64),
+    Custom(Vec<(u32, Option<usize>)>),
+}
+
+impl Feat {
+    fn to_features(&self) -> Features {
+        match self {
+            Feat::Mask(b) => Features::Mask(FeatureMask::from_bits_truncate(*b)),
+            Feat::Custom(v) => Features::Custom(v.iter().map(|(t, a)| FeatureInfo { feature_tag: *t, alternate: *a }).collect()),
+        }
+    }
+    fn label(&self) -> String {
+        match self {
+            Feat::Mask(b) => format!("Mask({:#x})", b),
+            Feat::Custom(v) => format!("Custom({})", v.iter().map(|(t, a)| format!("{}{}", tag_str(*t), a.map_or(String::new(), |a| format!("={}", a)))).collect::<Vec<_>>().join(",")),
+        }
+    }
+}
+
+#[derive(Clone, Debug, PartialEq)]
+pub struct ShapeArgs {
+    pub text: String,
+    pub script: u32,
+    pub lang: Option<u32>,
+    pub feat: Feat,
+    pub tuple: Option<usize>,
+    pub kerning: bool,
+}
+
+#[derive(Copy, Clone, Debug, PartialEq)]
+pub enum Q {
+    HasImages,
+    Gdef,
+    Morx,
+    Kern,
+    Vhea,
+    GsubCache,
+    GposCache,
+    AxisNames,
+    VariationAxes,
+    IsVariable,
+    NumGlyphs,
+    HasOutlines,
+    Os2,
+    CmapData,
+}
+const QUERIES: &[Q] = &[
+    Q::HasImages,
+    Q::Gdef,
+    Q::Morx,
+    Q::Kern,
+    Q::Vhea,
+    Q::GsubCache,
+    Q::GposCache,
+    Q::AxisNames,
+    Q::VariationAxes,
+    Q::IsVariable,
+    Q::NumGlyphs,
+    Q::HasOutlines,
+    Q::Os2,
+    Q::CmapData,
+];
+
+#[derive(Clone, Debug, PartialEq)]
+pub enum Op {
+    Map { text: String, script: u32, required: bool },
+    Lookup { ch: char, required: bool, vs: Option<u8> },
+    Shape(ShapeArgs),
+    Positions { sh: ShapeArgs, rtl: bool, vertical: bool },
+    HAdv(u16),
+    VAdv(u16),
+    Names(Vec<u16>),
+    Image { gid: u16, ppem: u16, depth: u8 },
+    Supported { script: u32, lang: Option<u32>, mask: u64 },
+    Query(Q),
+}
+
+const DOTTED_CIRCLE: char = '\u{25CC}';
+
+impl Op {
+    pub fn kind(&self) -> &'static str {
+        match self {
+            Op::Map { .. } => "map_glyphs",
+            Op::Lookup { .. } => "lookup_glyph_index",
+            Op::Shape(_) => "shape",
+            Op::Positions { .. } => "glyph_positions",
+            Op::HAdv(_) => "horizontal_advance",
+            Op::VAdv(_) => "vertical_advance",
+            Op::Names(_) => "glyph_names",
+            Op::Image { .. } => "lookup_glyph_image",
+            Op::Supported { .. } => "features_supported",
+            Op::Query(_) => "query",
+        }
+    }
+    /// kind refined by what makes the call special (stable, no case-specific values)
+    pub fn kind_refined(&self) -> String {
+        match self {
+            Op::Lookup { ch, .. } if *ch == DOTTED_CIRCLE => "lookup_glyph_index(dotted-circle)".to_string(),
+            Op::Map { text, .. } if text.contains(DOTTED_CIRCLE) => "map_glyphs(dotted-circle)".to_string(),
+            Op::Query(q) => format!("query({:?})", q),
+            _ => self.kind().to_string(),
+        }
+    }
+    pub fn label(&self) -> String {
+        let sh = |s: &ShapeArgs| {
+            format!(
+                "text={:?} script={} lang={} features={} tuple={:?} kerning={}",
+                s.text,
+                tag_str(s.script),
+                s.lang.map_or("None".to_string(), tag_str),
+                s.feat.label(),
+                s.tuple,
+                s.kerning
+            )
+        };
+        match self {
+            Op::Map { text, script, required } => format!("map_glyphs(text={:?}, script={}, required={})", text, tag_str(*script), required),
+            Op::Lookup { ch, required, vs } => format!("lookup_glyph_index(U+{:04X}, required={}, vs={:?})", *ch as u32, required, vs),
+            Op::Shape(s) => format!("shape({})", sh(s)),
+            Op::Positions { sh: s, rtl, vertical } => format!("glyph_positions(infos of fresh shape({}), rtl={}, vertical={})", sh(s), rtl, vertical),
+            Op::HAdv(g) => format!("horizontal_advance({})", g),
+            Op::VAdv(g) => format!("vertical_advance({})", g),
+            Op::Names(ids) => format!("glyph_names({:?})", ids),
+            Op::Image { gid, ppem, depth } => format!("lookup_glyph_image({}, {}, {})", gid, ppem, depth),
+            Op::Supported { script, lang, mask } => format!("features_supported({}, {}, {:#x})", tag_str(*script), lang.map_or("None".to_string(), tag_str), mask),
+            Op::Query(q) => format!("{:?}", q),
+        }
+    }
+    /// Names of the argument fields (for minimising the difference between two calls).
+    fn fields(&self) -> &'static [&'static str] {
+        match self {
+            Op::Map { .. } => &["text", "script", "presentation"],
+            Op::Lookup { .. } => &["char", "presentation", "vs"],
+            Op::Shape(_) => &["text", "script", "lang", "features", "tuple", "kerning"],
+            Op::Positions { .. } => &["text", "script", "lang", "features", "tuple", "kerning", "direction", "vertical"],
+            Op::HAdv(_) | Op::VAdv(_) => &["glyph"],
+            Op::Names(_) => &["ids"],
+            Op::Image { .. } => &["glyph", "ppem", "depth"],
+            Op::Supported { .. } => &["script", "lang", "features"],
+            Op::Query(_) => &["what"],
+        }
+    }
+    /// Copy argument field `i` from `from` (same kind). Returns false if kinds differ.
+    fn copy_field(&mut self, from: &Op, i: usize) -> bool {
+        fn sh_copy(a: &mut ShapeArgs, b: &ShapeArgs, i: usize) {
+            match i {
+                0 => a.text = b.text.clone(),
+                1 => a.script = b.script,
+                2 => a.lang = b.lang,
+                3 => a.feat = b.feat.clone(),
+                4 => a.tuple = b.tuple,
+                _ => a.kerning = b.kerning,
+            }
+        }
+        match (self, from) {
+            (Op::Map { text, script, required }, Op::Map { text: t, script: s, required: r }) => match i {
+                0 => *text = t.clone(),
+                1 => *script = *s,
+                _ => *required = *r,
+            },
+            (Op::Lookup { ch, required, vs }, Op::Lookup { ch: c, required: r, vs: v }) => match i {
+                0 => *ch = *c,
+                1 => *required = *r,
+                _ => *vs = *v,
+            },
+            (Op::Shape(a), Op::Shape(b)) => sh_copy(a, b, i),
+            (Op::Positions { sh: a, rtl, vertical }, Op::Positions { sh: b, rtl: r, vertical: v }) => match i {
+                0..=5 => sh_copy(a, b, i),
+                6 => *rtl = *r,
+                _ => *vertical = *v,
+            },
+            (Op::HAdv(a), Op::HAdv(b)) | (Op::VAdv(a), Op::VAdv(b)) => *a = *b,
+            (Op::Names(a), Op::Names(b)) => *a = b.clone(),
+            (Op::Image { gid, ppem, depth }, Op::Image { gid: g, ppem: p, depth: d }) => match i {
+                0 => *gid = *g,
+                1 => *ppem = *p,
+                _ => *depth = *d,
+            },
+            (Op::Supported { script, lang, mask }, Op::Supported { script: s, lang: l, mask: m }) => match i {
+                0 => *script = *s,
+                1 => *lang = *l,
+                _ => *mask = *m,
+            },
+            (Op::Query(a), Op::Query(b)) => *a = *b,
+            _ => return false,
+        }
+        true
+    }
+}
+
+fn vs_of(v: Option<u8>) -> Option<VariationSelector> {
+    match v {
+        Some(1) => Some(VariationSelector::VS01),
+        Some(2) => Some(VariationSelector::VS02),
+        Some(3) => Some(VariationSelector::VS03),
+        Some(15) => Some(VariationSelector::VS15),
+        Some(16) => Some(VariationSelector::VS16),
+        _ => None,
+    }
+}
+const VS_ALL: &[Option<u8>] = &[None, Some(1), Some(2), Some(3), Some(15), Some(16)];
+
+fn pres(required: bool) -> MatchingPresentation {
+    if required {
+        MatchingPresentation::Required
+    } else {
+        MatchingPresentation::NotRequired
+    }
+}
+fn depth_of(d: u8) -> BitDepth {
+    match d {
+        1 => BitDepth::One,
+        2 => BitDepth::Two,
+        4 => BitDepth::Four,
+        8 => BitDepth::Eight,
+        _ => BitDepth::ThirtyTwo,
+    }
+}
+
+fn render_image(r: &Result<Option<BitmapGlyph>, allsorts::error::ParseError>) -> String {
+    match r {
+        Err(e) => format!("Err({:?})", e),
+        Ok(None) => "Ok(None)".to_string(),
+        Ok(Some(g)) => {
+            let bm = match &g.bitmap {
+                Bitmap::Embedded(e) => format!("Embedded(w={} h={} fmt={:?} len={} hash={:016x})", e.width, e.height, e.format, e.data.len(), hash_bytes(&e.data)),
+                Bitmap::Encapsulated(e) => {
+                    let f = match e.format {
+                        allsorts::bitmap::EncapsulatedFormat::Jpeg => "jpeg".to_string(),
+                        allsorts::bitmap::EncapsulatedFormat::Png => "png".to_string(),
+                        allsorts::bitmap::EncapsulatedFormat::Tiff => "tiff".to_string(),
+                        allsorts::bitmap::EncapsulatedFormat::Svg => "svg".to_string(),
+                        allsorts::bitmap::EncapsulatedFormat::Other(t) => format!("other({:08x})", t),
+                    };
+                    format!("Encapsulated(fmt={} len={} hash={:016x})", f, e.data.len(), hash_bytes(&e.data))
+                }
+            };
+            format!("Ok(Some(ppem=({:?},{:?}) metrics={:?} bitmap={}))", g.ppem_x, g.ppem_y, g.metrics, bm)
+        }
+    }
+}
+
+/// Everything an operation needs besides the font it runs on. Arguments that are themselves
+/// computed by allsorts (the glyph run given to `shape`, the infos given to `GlyphLayout`) are
+/// computed on their own fresh `Font` and memoised per case, so that the long-lived font and the
+/// fresh font receive identical arguments.
+pub struct Env<'a> {
+    pub bytes: &'a [u8],
+    pub tuples: Vec<OwnedTuple>,
+    glyphs: RefCell<HashMap<(String, u32), Vec<RawGlyph<()>>>>,
+    infos: RefCell<HashMap<String, Option<Vec<Info>>>>,
+}
+
+impl<'a> Env<'a> {
+    pub fn new(bytes: &'a [u8], tuples: Vec<OwnedTuple>) -> Env<'a> {
+        Env { bytes, tuples, glyphs: RefCell::new(HashMap::new()), infos: RefCell::new(HashMap::new()) }
+    }
+    fn arg_glyphs(&self, text: &str, script: u32) -> Vec<RawGlyph<()>> {
+        let key = (text.to_string(), script);
+        if let Some(g) = self.glyphs.borrow().get(&key) {
+            return g.clone();
+        }
+        let g = match load_font(self.bytes) {
+            Some(mut f) => f.map_glyphs(text, script, MatchingPresentation::NotRequired),
+            None => Vec::new(),
+        };
+        self.glyphs.borrow_mut().insert(key, g.clone());
+        g
+    }
+    fn shape_on(&self, font: &mut AFont<'a>, s: &ShapeArgs) -> Result<Vec<Info>, (allsorts::error::ShapingError, Vec<Info>)> {
+        let glyphs = self.arg_glyphs(&s.text, s.script);
+        let tuple = s.tuple.and_then(|i| self.tuples.get(i)).map(|t| t.as_tuple());
+        font.shape(glyphs, s.script, s.lang, &s.feat.to_features(), tuple, s.kerning)
+    }
+    fn arg_infos(&self, s: &ShapeArgs) -> Option<Vec<Info>> {
+        let key = format!("{:?}", s);
+        if let Some(i) = self.infos.borrow().get(&key) {
+            return i.clone();
+        }
+        let r = load_font(self.bytes).and_then(|mut f| match self.shape_on(&mut f, s) {
+            Ok(i) => Some(i),
+            Err((_, i)) => Some(i),
+        });
+        self.infos.borrow_mut().insert(key, r.clone());
+        r
+    }
+
+    /// Run `op` on `font` and render the result canonically.
+    pub fn run(&self, font: &mut AFont<'a>, op: &Op) -> String {
+        match op {
+            Op::Map { text, script, required } => format!("{:?}", font.map_glyphs(text, *script, pres(*required))),
+            Op::Lookup { ch, required, vs } => format!("{:?}", font.lookup_glyph_index(*ch, pres(*required), vs_of(*vs))),
+            Op::Shape(s) => match self.shape_on(font, s) {
+                Ok(i) => format!("Ok({:?})", i),
+                Err((e, i)) => format!("Err({:?}, {:?})", e, i),
+            },
+            Op::Positions { sh, rtl, vertical } => {
+                let infos = match self.arg_infos(sh) {
+                    Some(i) => i,
+                    None => return "no-infos".to_string(),
+                };
+                let dir = if *rtl { TextDirection::RightToLeft } else { TextDirection::LeftToRight };
+                let mut layout = GlyphLayout::new(font, &infos, dir, *vertical);
+                format!("{:?}", layout.glyph_positions())
+            }
+            Op::HAdv(g) => format!("{:?}", font.horizontal_advance(*g)),
+            Op::VAdv(g) => format!("{:?}", font.vertical_advance(*g)),
+            Op::Names(ids) => format!("{:?}", font.glyph_names(ids)),
+            Op::Image { gid, ppem, depth } => render_image(&font.lookup_glyph_image(*gid, *ppem, depth_of(*depth))),
+            Op::Supported { script, lang, mask } => match font.gsub_cache() {
+                Ok(Some(c)) => format!("{:?}", allsorts::gsub::features_supported(&c, *script, *lang, FeatureMask::from_bits_truncate(*mask))),
+                Ok(None) => "no-gsub".to_string(),
+                Err(e) => format!("gsub-err({:?})", e),
+            },
+            Op::Query(q) => match q {
+                Q::HasImages => format!("{:?}", font.has_embedded_images()),
+                Q::Gdef => format!("{:?}", font.gdef_table().map(|t| t.is_some())),
+                Q::Morx => format!("{:?}", font.morx_table().map(|t| t.is_some())),
+                Q::Kern => format!("{:?}", font.kern_table().map(|t| t.is_some())),
+                Q::Vhea => format!("{:?}", font.vhea_table()),
+                Q::GsubCache => format!("{:?}", font.gsub_cache().map(|t| t.is_some())),
+                Q::GposCache => format!("{:?}", font.gpos_cache().map(|t| t.is_some())),
+                Q::AxisNames => format!("{:?}", font.axis_names()),
+                Q::VariationAxes => format!("{:?}", font.variation_axes()),
+                Q::IsVariable => format!("{:?}", font.is_variable()),
+                Q::NumGlyphs => format!("{:?}", font.num_glyphs()),
+                Q::HasOutlines => format!("{:?}", font.has_glyph_outlines()),
+                Q::Os2 => format!(
+                    "{:?}",
+                    font.os2_table().map(|o| o.map(|o| (o.version, o.us_weight_class, o.us_width_class, o.fs_type, o.panose, o.ul_unicode_range1, o.ul_unicode_range2)))
+                ),
+                Q::CmapData => format!("{:?} len={} hash={:016x}", font.cmap_subtable_encoding, font.cmap_subtable_data().len(), hash_bytes(font.cmap_subtable_data())),
+            },
+        }
+    }
+}
+
+/// Call `f`, turning a panic into a rendered result (a panic that happens identically on the fresh
+/// font is C01/C02's business, not a history dependence).
+fn quiet<R>(f: impl FnOnce() -> R) -> Result<R, String> {
+    match panic::catch_unwind(AssertUnwindSafe(f)) {
+        Ok(r) => Ok(r),
+        Err(_) => {
+            let p = take_last_panic().unwrap_or_default();
+            Err(format!("PANIC[{}] {}", p.site, normalise_digits(&p.message)))
+        }
+    }
+}
+
+const HIT_EVENTS: &[&str] = &["lookups_index_hit", "supported_features_hit", "lookup_cache_hit", "read_cache_hit", "lazy_load_hit", "glyph_cache_hit"];
+
+fn hits_delta(before: &allsorts::verif::Snapshot, after: &allsorts::verif::Snapshot) -> Vec<(&'static str, u64)> {
+    HIT_EVENTS
+        .iter()
+        .filter_map(|e| {
+            let a = after.events.get(e).copied().unwrap_or(0);
+            let b = before.events.get(e).copied().unwrap_or(0);
+            if a > b {
+                Some((*e, a - b))
+            } else {
+                None
+            }
+        })
+        .collect()
+}
+
+// ---- fonts and pools ----------------------------------------------------------------------------
+
+pub struct RealFont {
+    pub name: String,
+    pub data: Vec<u8>,
+    pub scripts: Vec<u32>,
+    pub langs: Vec<u32>,
+    pub features: Vec<u32>,
+    pub has_gsub: bool,
+    pub has_gsub_fv: bool,
+    pub has_fvar: bool,
+    pub has_images: bool,
+    pub num_glyphs: u16,
+}
+
+/// Independent walk of a GSUB/GPOS header: script tags, language tags, feature tags, and whether a
+/// FeatureVariations table is present.
+fn layout_tags(d: &[u8]) -> Option<(Vec<u32>, Vec<u32>, Vec<u32>, bool)> {
+    let be32 = crate::sfnt::be32;
+    let minor = be16(d, 2)?;
+    let sl = be16(d, 4)? as usize;
+    let fl = be16(d, 6)? as usize;
+    let fv = if minor >= 1 { be32(d, 10)? != 0 } else { false };
+    let mut scripts = Vec::new();
+    let mut langs = Vec::new();
+    let mut feats = Vec::new();
+    if sl != 0 {
+        let n = be16(d, sl)? as usize;
+        for i in 0..n {
+            scripts.push(be32(d, sl + 2 + 6 * i)?);
+            let so = sl + be16(d, sl + 2 + 6 * i + 4)? as usize;
+            let ln = be16(d, so + 2)? as usize;
+            for j in 0..ln.min(8) {
+                langs.push(be32(d, so + 4 + 6 * j)?);
+            }
+        }
+    }
+    if fl != 0 {
+        let n = be16(d, fl)? as usize;
+        for i in 0..n {
+            feats.push(be32(d, fl + 2 + 6 * i)?);
+        }
+    }
+    langs.sort();
+    langs.dedup();
+    feats.sort();
+    feats.dedup();
+    Some((scripts, langs, feats, fv))
+}
+
+fn classify(name: &str, data: Vec<u8>) -> Option<RealFont> {
+    let fd = ReadScope::new(&data).read::<FontData<'_>>().ok()?;
+    let p = fd.table_provider(0).ok()?;
+    let font = Font::new(fd.table_provider(0).ok()?).ok()?;
+    let num_glyphs = font.num_glyphs();
+    drop(font);
+    let gsub = p.table_data(allsorts::tag::GSUB).ok().flatten();
+    let (scripts, langs, features, has_gsub_fv) = gsub.as_deref().and_then(layout_tags).unwrap_or_default();
+    let has_gsub = gsub.is_some();
+    let has_fvar = p.has_table(allsorts::tag::FVAR);
+    let has_images = [allsorts::tag::SBIX, allsorts::tag::CBDT, allsorts::tag::SVG, allsorts::tag::EBDT].iter().any(|t| p.has_table(*t));
+    drop(gsub);
+    drop(p);
+    drop(fd);
+    Some(RealFont { name: name.to_string(), data, scripts, langs, features, has_gsub, has_gsub_fv, has_fvar, has_images, num_glyphs })
+}
+
+const LATIN_WORDS: &[&str] = &["office", "fi", "ffl", "AVATAR", "To", "1/2", "3/45", "difficult", "Würde", "naïve", "a b", "fjord", "Type", "ff"];
+const ARABIC_WORDS: &[&str] = &["السلام", "عليكم", "كتاب", "مُحَمَّد", "لا", "الله", "بِسْمِ", "ٱلرَّحْمَٰنِ", "شيء", "لله", "ـّـ", "ّ"];
+const SYRIAC_WORDS: &[&str] = &["ܫܠܡܐ", "ܐܒܘܢ", "ܕܒܫܡܝܐ", "ܡܠܟܘܬܟ", "ܢܬܩܕܫ"];
+const THAI_WORDS: &[&str] = &["สวัสดี", "ภาษาไทย", "น้ำ", "กรุงเทพ", "ที่นี่", "ำ"];
+const LAO_WORDS: &[&str] = &["ສະບາຍດີ", "ພາສາລາວ", "ນ້ຳ", "ຳ"];
+
+fn word_list_key(script: u32) -> Option<&'static str> {
+    Some(match tag_str(script).as_str() {
+        "deva" | "dev2" => "indic/good.hi",
+        "beng" | "bng2" => "indic/good.bn",
+        "gujr" | "gjr2" => "indic/good.gu",
+        "knda" | "knd2" => "indic/good.kn",
+        "mlym" | "mlm2" => "indic/good.ml",
+        "orya" | "ory2" => "indic/good.or",
+        "guru" | "gur2" => "indic/good.pa",
+        "sinh" => "indic/good.si",
+        "taml" | "tml2" => "indic/good.ta",
+        "telu" | "tel2" => "indic/good.te",
+        "khmr" => "khmer/good",
+        "mymr" | "mym2" => "myanmar/good",
+        _ => return None,
+    })
+}
+
+fn sibling_script(script: u32) -> Option<u32> {
+    let s = tag_str(script);
+    let pairs = [("deva", "dev2"), ("beng", "bng2"), ("gujr", "gjr2"), ("knda", "knd2"), ("mlym", "mlm2"), ("orya", "ory2"), ("guru", "gur2"), ("taml", "tml2"), ("telu", "tel2"), ("mymr", "mym2")];
+    for (a, b) in pairs {
+        if s == a {
+            return Some(tag(b));
+        }
+        if s == b {
+            return Some(tag(a));
+        }
+    }
+    None
+}
+
+pub struct C03 {
+    fonts: Vec<RealFont>,
+    shaping: Vec<usize>,
+    variable: Vec<usize>,
+    images: Vec<usize>,
+    all: Vec<usize>,
+    words: BTreeMap<&'static str, Vec<String>>,
+    pure: c03_pure::Pure,
+    outline: c03_outline::Outline,
+    /// set when the running history already counted a generator self-check failure
+    model_mismatch_flag: std::cell::Cell<bool>,
+}
 
 impl C03 {
-    pub fn new(_cx: &mut Ctx) -> C03 {
-        C03 {}
+    pub fn new(cx: &mut Ctx) -> C03 {
+        let max_len = 2_500_000;
+        let mut fonts = Vec::new();
+        for sf in load_seed_fonts(max_len, false) {
+            if let Some(f) = classify(&sf.name, sf.data) {
+                fonts.push(f);
+            }
+        }
+        let shaping: Vec<usize> = (0..fonts.len()).filter(|&i| fonts[i].has_gsub).collect();
+        let variable: Vec<usize> = (0..fonts.len()).filter(|&i| fonts[i].has_fvar).collect();
+        let images: Vec<usize> = (0..fonts.len()).filter(|&i| fonts[i].has_images).collect();
+        let all: Vec<usize> = (0..fonts.len()).collect();
+        let mut words = BTreeMap::new();
+        for key in ["indic/good.hi", "indic/good.bn", "indic/good.gu", "indic/good.kn", "indic/good.ml", "indic/good.or", "indic/good.pa", "indic/good.si", "indic/good.ta", "indic/good.te", "khmer/good", "myanmar/good"] {
+            let mut v = Vec::new();
+            if let Ok(s) = std::fs::read_to_string(format!("/repo/tests/{}", key)) {
+                let lines: Vec<&str> = s.lines().filter(|l| !l.is_empty() && l.chars().count() <= 10).collect();
+                let step = (lines.len() / 3000).max(1);
+                v = lines.iter().step_by(step).map(|l| l.to_string()).collect();
+            }
+            words.insert(key, v);
+        }
+        let pure = c03_pure::Pure::new(cx);
+        let outline = c03_outline::Outline::new(cx);
+        C03 { fonts, shaping, variable, images, all, words, pure, outline, model_mismatch_flag: std::cell::Cell::new(false) }
+    }
+
+    fn word(&self, script: u32, rng: &mut Rng) -> String {
+        if let Some(k) = word_list_key(script) {
+            if let Some(v) = self.words.get(k) {
+                if !v.is_empty() {
+                    return rng.pick(v).clone();
+                }
+            }
+        }
+        let list: &[&str] = match tag_str(script).as_str() {
+            "arab" => ARABIC_WORDS,
+            "syrc" => SYRIAC_WORDS,
+            "thai" => THAI_WORDS,
+            "lao " => LAO_WORDS,
+            _ => LATIN_WORDS,
+        };
+        rng.pick(list).to_string()
+    }
+
+    fn text(&self, script: u32, rng: &mut Rng) -> String {
+        let mut cs: Vec<char> = self.word(script, rng).chars().collect();
+        if rng.chance(1, 4) {
+            cs.push(' ');
+            cs.extend(self.word(script, rng).chars());
+        }
+        // hostile material
+        if rng.chance(1, 4) && !cs.is_empty() {
+            let k = 1 + rng.below(cs.len());
+            cs.truncate(k);
+        }
+        if rng.chance(1, 4) {
+            let at = rng.below(cs.len() + 1);
+            cs.insert(at, DOTTED_CIRCLE);
+        }
+        if rng.chance(1, 8) {
+            let at = rng.below(cs.len() + 1);
+            cs.insert(at, *rng.pick(&['\u{200D}', '\u{200C}', '\u{FE0F}', '\u{FE0E}', '\u{034F}']));
+        }
+        if rng.chance(1, 10) && cs.len() > 1 {
+            // lone mark first: move the last char to the front
+            if let Some(c) = cs.pop() {
+                cs.insert(0, c);
+            }
+        }
+        cs.into_iter().collect()
+    }
+}
+
+fn random_mask(rng: &mut Rng) -> u64 {
+    match rng.below(8) {
+        0 => FeatureMask::default().bits(),
+        1 => 0,
+        2 => FeatureMask::all().bits(),
+        3 => (FeatureMask::default() | FeatureMask::FRAC).bits(),
+        4 => (FeatureMask::default() | FeatureMask::SMCP | FeatureMask::ONUM).bits(),
+        5 => (FeatureMask::default() - FeatureMask::LIGA).bits(),
+        _ => rng.u64() & FeatureMask::all().bits(),
+    }
+}
+
+/// What a history needs to know about its font.
+struct Pools {
+    scripts: Vec<u32>,
+    langs: Vec<Option<u32>>,
+    feats: Vec<Feat>,
+    tuples: usize,
+    texts: Vec<(String, u32)>,
+    chars: Vec<char>,
+    gids: Vec<u16>,
+    image_heavy: bool,
+}
+
+fn gen_op(p: &Pools, rng: &mut Rng) -> Op {
+    let shape_args = |rng: &mut Rng| -> ShapeArgs {
+        let (text, tscript) = rng.pick(&p.texts).clone();
+        // mostly the script the text was made for, sometimes a mismatched one from the pool
+        let script = if rng.chance(1, 5) { *rng.pick(&p.scripts) } else { tscript };
+        let tuple = if p.tuples == 0 || rng.chance(1, 4) { None } else { Some(rng.below(p.tuples)) };
+        ShapeArgs { text, script, lang: *rng.pick(&p.langs), feat: rng.pick(&p.feats).clone(), tuple, kerning: !rng.chance(1, 4) }
+    };
+    let r = rng.below(100);
+    let img = if p.image_heavy { 25 } else { 4 };
+    if r < img {
+        return Op::Image { gid: *rng.pick(&p.gids), ppem: *rng.pick(&[0u16, 16, 20, 128, 300, 1000]), depth: *rng.pick(&[1u8, 8, 32]) };
+    }
+    match rng.below(100) {
+        0..=34 => Op::Shape(shape_args(rng)),
+        35..=44 => Op::Positions { sh: shape_args(rng), rtl: rng.bool(), vertical: rng.chance(1, 3) },
+        45..=56 => {
+            let (text, script) = rng.pick(&p.texts).clone();
+            Op::Map { text, script, required: rng.chance(1, 3) }
+        }
+        57..=71 => {
+            let ch = if rng.bool() { DOTTED_CIRCLE } else { *rng.pick(&p.chars) };
+            Op::Lookup { ch, required: rng.bool(), vs: *rng.pick(VS_ALL) }
+        }
+        72..=75 => Op::HAdv(*rng.pick(&p.gids)),
+        76..=78 => Op::VAdv(*rng.pick(&p.gids)),
+        79..=82 => {
+            let n = 1 + rng.below(4);
+            Op::Names((0..n).map(|_| *rng.pick(&p.gids)).collect())
+        }
+        83..=87 => {
+            let mask = match rng.pick(&p.feats) {
+                Feat::Mask(m) => *m,
+                _ => FeatureMask::default().bits(),
+            };
+            Op::Supported { script: *rng.pick(&p.scripts), lang: *rng.pick(&p.langs), mask: if rng.bool() { mask } else { 1u64 << rng.below(46) } }
+        }
+        _ => Op::Query(*rng.pick(QUERIES)),
+    }
+}
+
+#[derive(Copy, Clone, PartialEq, Debug)]
+enum FontClass {
+    Shaping,
+    Variable,
+    Images,
+    /// any loadable seed font (symbol-encoded, CFF, WOFF, WOFF2, ...)
+    Any,
+    /// a seed font with one optional table truncated / overwritten, so that lazy loaders fail
+    Faulted,
+    Generated,
+}
+
+impl C03 {
+    fn real_pools(&self, f: &RealFont, class: FontClass, ntuples: usize, rng: &mut Rng) -> Pools {
+        // scripts: the font's own (and their v1/v2 siblings), plus foreigners
+        let mut cand: Vec<u32> = Vec::new();
+        for s in &f.scripts {
+            cand.push(*s);
+            if let Some(x) = sibling_script(*s) {
+                cand.push(x);
+            }
+        }
+        if cand.is_empty() {
+            cand.push(tag("latn"));
+        }
+        let mut scripts = Vec::new();
+        let ns = 2 + rng.below(3);
+        for _ in 0..ns {
+            let s = if rng.chance(1, 6) { *rng.pick(&[tag("latn"), tag("DFLT"), tag("arab"), tag("deva"), tag("zzzz")]) } else { *rng.pick(&cand) };
+            if !scripts.contains(&s) {
+                scripts.push(s);
+            }
+        }
+        let other_lang = if !f.langs.is_empty() && !rng.chance(1, 4) { *rng.pick(&f.langs) } else { *rng.pick(&[tag("URD "), tag("ENG "), tag("TRK "), tag("MAR "), tag("NEP "), tag("DFLT")]) };
+        let langs = vec![None, Some(other_lang)];
+        let mut feats = vec![Feat::Mask(FeatureMask::default().bits())];
+        while feats.len() < 3 {
+            let ft = if rng.chance(2, 3) {
+                Feat::Mask(random_mask(rng))
+            } else {
+                let n = rng.below(6);
+                let mut v: Vec<(u32, Option<usize>)> = Vec::new();
+                for _ in 0..n {
+                    let t = if !f.features.is_empty() && !rng.chance(1, 5) { *rng.pick(&f.features) } else { *rng.pick(&[tag("liga"), tag("kern"), tag("calt"), tag("smcp"), tag("rvrn"), tag("salt"), tag("fina")]) };
+                    v.push((t, if rng.chance(1, 6) { Some(rng.below(3)) } else { None }));
+                }
+                Feat::Custom(v)
+            };
+            if !feats.contains(&ft) {
+                feats.push(ft);
+            }
+        }
+        let nt = 3 + rng.below(3);
+        let mut texts = Vec::new();
+        for _ in 0..nt {
+            let s = *rng.pick(&scripts);
+            texts.push((self.text(s, rng), s));
+        }
+        let mut chars = vec!['A', '\u{2764}', '\u{1F600}', ' ', '\u{F041}', '\u{41}'];
+        for (t, _) in &texts {
+            if let Some(c) = t.chars().next() {
+                chars.push(c);
+            }
+        }
+        let n = f.num_glyphs.max(1);
+        let mut gids: Vec<u16> = (0..4).map(|_| rng.below(n as usize) as u16).collect();
+        gids.push(0);
+        if n > 1 {
+            gids.push(1);
+        }
+        if rng.chance(1, 3) {
+            gids.push(n); // out of range
+        }
+        Pools { scripts, langs, feats, tuples: ntuples, texts, chars, gids, image_heavy: class == FontClass::Images }
+    }
+
+    /// Up to three normalised tuples built from the font's own fvar (and avar).
+    fn real_tuples(&self, f: &RealFont, rng: &mut Rng) -> Vec<OwnedTuple> {
+        let mut out = Vec::new();
+        let fd = match ReadScope::new(&f.data).read::<FontData<'_>>() {
+            Ok(x) => x,
+            Err(_) => return out,
+        };
+        let p = match fd.table_provider(0) {
+            Ok(p) => p,
+            Err(_) => return out,
+        };
+        let fvar_data = match p.table_data(allsorts::tag::FVAR) {
+            Ok(Some(d)) => d,
+            _ => return out,
+        };
+        let fvar = match ReadScope::new(&fvar_data).read::<FvarTable<'_>>() {
+            Ok(t) => t,
+            Err(_) => return out,
+        };
+        let avar_data = p.table_data(allsorts::tag::AVAR).ok().flatten();
+        let avar = avar_data.as_ref().and_then(|d| ReadScope::new(d).read::<AvarTable<'_>>().ok());
+        let axes: Vec<_> = fvar.axes().collect();
+        for k in 0..3 {
+            let user: Vec<Fixed> = axes
+                .iter()
+                .map(|a| match (k + rng.below(2)) % 4 {
+                    0 => a.max_value,
+                    1 => a.min_value,
+                    2 => a.default_value,
+                    _ => Fixed::from_raw(((a.min_value.raw_value() as i64 + a.max_value.raw_value() as i64) / 2) as i32),
+                })
+                .collect();
+            if let Ok(t) = fvar.normalize(user.iter().copied(), avar.as_ref()) {
+                out.push(t);
+            }
+        }
+        out
+    }
+}
+
+const FAULT_TABLES: &[&str] = &["GDEF", "GSUB", "GPOS", "kern", "vhea", "vmtx", "OS/2", "fvar", "post", "sbix", "SVG ", "EBLC", "CBLC", "morx", "avar"];
+
+/// One optional table of a plain sfnt font truncated, zeroed or with a damaged header.
+fn fault_font(data: &[u8], rng: &mut Rng) -> Option<(Vec<u8>, String)> {
+    let mut f = crate::sfnt::Font::parse(data)?;
+    let present: Vec<&str> = FAULT_TABLES.iter().copied().filter(|t| f.gets(t).is_some()).collect();
+    if present.is_empty() {
+        return None;
+    }
+    let t = *rng.pick(&present);
+    let mut d = f.gets(t)?.to_vec();
+    let kind = match rng.below(4) {
+        0 => {
+            d.truncate(rng.below(d.len().min(64) + 1));
+            "truncated"
+        }
+        1 => {
+            let n = d.len().min(2 + rng.below(10));
+            for b in d.iter_mut().take(n) {
+                *b = 0xFF;
+            }
+            "header-ff"
+        }
+        2 => {
+            for b in d.iter_mut() {
+                *b = 0;
+            }
+            "zeroed"
+        }
+        _ => {
+            let keep = d.len() / 2;
+            d.truncate(keep);
+            "halved"
+        }
+    };
+    f.sets(t, d);
+    Some((f.build(), format!("{}:{}", t.trim(), kind)))
+}
+
+fn gen_tuples(g: &GenFont, rng: &mut Rng) -> Option<(Vec<Vec<i16>>, Vec<OwnedTuple>)> {
+    let fvar_bytes = crate::sfnt::Font::parse(&g.bytes)?.gets("fvar")?.to_vec();
+    let fvar = ReadScope::new(&fvar_bytes).read::<FvarTable<'_>>().ok()?;
+    // choose tuples from different selection classes of the GSUB (or else GPOS) variation records
+    // whenever the description has more than one class
+    let mut all: Vec<Vec<i16>> = vec![Vec::new()];
+    for _ in 0..g.axes {
+        all = all.into_iter().flat_map(|v| c03_gen::COORDS.iter().map(move |c| { let mut w = v.clone(); w.push(*c); w })).collect();
+    }
+    rng.shuffle(&mut all);
+    let layout = if rng.chance(1, 4) { &g.gpos } else { &g.gsub };
+    let mut classes: BTreeMap<Option<usize>, Vec<Vec<i16>>> = BTreeMap::new();
+    for t in all {
+        classes.entry(layout.select(Some(&t))).or_default().push(t);
+    }
+    let n = 2 + rng.below(2);
+    let mut raws: Vec<Vec<i16>> = Vec::new();
+    let mut round = 0;
+    while raws.len() < n && round < 4 {
+        for (_, v) in classes.iter() {
+            if raws.len() < n {
+                if let Some(t) = v.get(round) {
+                    raws.push(t.clone());
+                }
+            }
+        }
+        round += 1;
+    }
+    rng.shuffle(&mut raws);
+    let mut owned = Vec::new();
+    for r in &raws {
+        let v: Vec<F2Dot14> = r.iter().map(|x| F2Dot14::from_raw(*x)).collect();
+        owned.push(fvar.owned_tuple(&v)?);
+    }
+    Some((raws, owned))
+}
+
+fn mask_tags(bits: u64) -> Vec<u32> {
+    FeatureMask::from_bits_truncate(bits).iter().map(|f| f.feature_tag).collect()
+}
+
+fn gen_pools(g: &GenFont, ntuples: usize, rng: &mut Rng) -> Pools {
+    let mut scripts: Vec<u32> = Vec::new();
+    let ns = 2 + rng.below(3);
+    let cand = [tag("DFLT"), tag("latn"), tag("cyrl"), tag("grek")];
+    for _ in 0..ns {
+        let s = *rng.pick(&cand);
+        if !scripts.contains(&s) {
+            scripts.push(s);
+        }
+    }
+    let langs = vec![None, Some(tag(*rng.pick(c03_gen::LANGS)))];
+    let mut feats = vec![Feat::Mask(FeatureMask::default().bits())];
+    while feats.len() < 3 {
+        let ft = match rng.below(6) {
+            0 => Feat::Mask((FeatureMask::default() | FeatureMask::SMCP | FeatureMask::ONUM | FeatureMask::RVRN).bits()),
+            1 => Feat::Mask(FeatureMask::LIGA.bits()),
+            2 => Feat::Mask((FeatureMask::default() - FeatureMask::LIGA).bits()),
+            3 => Feat::Mask((FeatureMask::CALT | FeatureMask::SMCP | FeatureMask::RVRN).bits()),
+            _ => {
+                let n = 1 + rng.below(4);
+                let mut v: Vec<(u32, Option<usize>)> = Vec::new();
+                for _ in 0..n {
+                    let t = if rng.bool() { tag(*rng.pick(c03_gen::GSUB_FEATURES)) } else { tag(*rng.pick(c03_gen::GPOS_FEATURES)) };
+                    if !v.iter().any(|x| x.0 == t) {
+                        v.push((t, None));
+                    }
+                }
+                Feat::Custom(v)
+            }
+        };
+        if !feats.contains(&ft) {
+            feats.push(ft);
+        }
+    }
+    let nt = 2 + rng.below(3);
+    let mut texts = Vec::new();
+    for _ in 0..nt {
+        let n = 2 + rng.below(7);
+        let mut t: String = (0..n).map(|_| (b'a' + rng.below(c03_gen::LETTERS as usize) as u8) as char).collect();
+        if rng.chance(1, 4) {
+            t.push(' ');
+            t.push('a');
+        }
+        if rng.chance(1, 6) {
+            t.push(DOTTED_CIRCLE);
+        }
+        texts.push((t, *rng.pick(&scripts)));
+    }
+    let chars = vec!['a', 'b', ' ', 'z', '\u{2764}'];
+    let mut gids: Vec<u16> = (0..4).map(|_| rng.below(g.num_glyphs as usize) as u16).collect();
+    gids.push(0);
+    gids.push(g.num_glyphs);
+    Pools { scripts, langs, feats, tuples: ntuples, texts, chars, gids, image_heavy: false }
+}
+
+/// Short form of a rendered result for witnesses: glyph ids / kerning / placements of a run,
+/// otherwise the first 600 characters.
+fn compact(s: &str) -> String {
+    if s.contains("glyph_index: ") {
+        let grab = |key: &str| -> Vec<String> {
+            s.match_indices(key).map(|(i, _)| s[i + key.len()..].chars().take_while(|c| *c != ',' && *c != ' ' && *c != '}').collect::<String>()).collect()
+        };
+        let head: String = s.chars().take_while(|c| *c != '[').collect();
+        let mut out = format!("{} glyph_index={:?}", head, grab("glyph_index: "));
+        if s.contains("kerning: ") {
+            out.push_str(&format!(" kerning={:?} placement={:?}", grab("kerning: "), grab("placement: ")));
+        }
+        out.push_str(&format!(" variation={:?}", grab("variation: ")));
+        out.chars().take(1500).collect()
+    } else {
+        s.chars().take(600).collect()
+    }
+}
+
+fn parse_shape_ok(rendered: &str) -> bool {
+    rendered.starts_with("Ok(")
+}
+
+/// (glyph id, kerning) pairs out of a shape result (fresh font), for the generator self-check.
+fn run_of(infos: &[Info]) -> Vec<(u16, i32)> {
+    infos.iter().map(|i| (i.glyph.glyph_index, i.kerning as i32)).collect()
+}
+
+impl C03 {
+    fn history_case(&mut self, cx: &mut Ctx, rng: &mut Rng, class: FontClass) {
+        self.model_mismatch_flag.set(false);
+        // --- the font, its tuples and pools
+        let gen: Option<GenFont>;
+        let mut real_fv = false;
+        let faulted_bytes: Vec<u8>;
+        let mut gen_raw_tuples: Vec<Vec<i16>> = Vec::new();
+        let (bytes, name, tuples, pools): (&[u8], String, Vec<OwnedTuple>, Pools) = match class {
+            FontClass::Generated => {
+                let g = c03_gen::gen_font(rng);
+                let (raws, owned) = match gen_tuples(&g, rng) {
+                    Some(x) => x,
+                    None => {
+                        cx.inconclusive("gen:no-tuples");
+                        return;
+                    }
+                };
+                gen_raw_tuples = raws;
+                let pools = gen_pools(&g, owned.len(), rng);
+                gen = Some(g);
+                let g = gen.as_ref().map(|g| g.bytes.as_slice()).unwrap_or(&[]);
+                (g, "generated".to_string(), owned, pools)
+            }
+            FontClass::Faulted => {
+                gen = None;
+                let f = &self.fonts[*rng.pick(&self.all)];
+                match fault_font(&f.data, rng) {
+                    Some((b, what)) => {
+                        faulted_bytes = b;
+                        for part in what.split(':') {
+                            cx.class(&format!("faulted:{}", part));
+                        }
+                        let pools = self.real_pools(f, class, 0, rng);
+                        (faulted_bytes.as_slice(), format!("{} [{}]", f.name, what), Vec::new(), pools)
+                    }
+                    None => {
+                        cx.class("faulted:not-applicable");
+                        return;
+                    }
+                }
+            }
+            _ => {
+                gen = None;
+                let list = match class {
+                    FontClass::Shaping => &self.shaping,
+                    FontClass::Variable => &self.variable,
+                    FontClass::Images => &self.images,
+                    _ => &self.all,
+                };
+                if list.is_empty() {
+                    cx.inconclusive("no-font-of-class");
+                    return;
+                }
+                let f = &self.fonts[*rng.pick(list)];
+                real_fv = f.has_gsub_fv && f.has_fvar;
+                let tuples = if f.has_fvar { self.real_tuples(f, rng) } else { Vec::new() };
+                let pools = self.real_pools(f, class, tuples.len(), rng);
+                (f.data.as_slice(), f.name.clone(), tuples, pools)
+            }
+        };
+        let env = Env::new(bytes, tuples);
+        let mut long = match load_font(bytes) {
+            Some(f) => f,
+            None => {
+                if class == FontClass::Faulted {
+                    cx.class("faulted:font-not-loadable");
+                } else {
+                    cx.inconclusive(if class == FontClass::Generated { "gen:font-not-loadable" } else { "font-not-loadable" });
+                }
+                return;
+            }
+        };
+        let n_ops = 2 + rng.below(39);
+        let mut history: Vec<Op> = Vec::new();
+        let mut any_hit_after_different_args = false;
+        let mut compared = 0u64;
+        let mut violated = false;
+        for step in 0..n_ops {
+            let op = gen_op(&pools, rng);
+            // fresh-object model
+            let fresh = match load_font(bytes) {
+                Some(mut f) => quiet(|| env.run(&mut f, &op)).unwrap_or_else(|e| e),
+                None => {
+                    cx.inconclusive("font-not-loadable");
+                    return;
+                }
+            };
+            // generator self-check: the fresh font must agree with the description's interpreter
+            if let (Some(g), Op::Shape(s)) = (gen.as_ref(), &op) {
+                self.gen_self_check(cx, g, &env, s, &gen_raw_tuples, &fresh);
+            }
+            let before = allsorts::verif::snapshot();
+            let got = quiet(|| env.run(&mut long, &op));
+            let after = allsorts::verif::snapshot();
+            let panicked = got.is_err();
+            let got = got.unwrap_or_else(|e| e);
+            compared += 1;
+            cx.class(&format!("compared:{}", op.kind()));
+            let differs_from_earlier = history.iter().any(|h| *h != op);
+            for (e, n) in hits_delta(&before, &after) {
+                cx.class_n(&format!("hit:{}", e), n);
+                if differs_from_earlier {
+                    cx.class(&format!("hit-after-different-args:{}", e));
+                    any_hit_after_different_args = true;
+                }
+            }
+            if got != fresh {
+                violated = true;
+                self.report(cx, bytes, &name, class, &env, &history, &op, &got, &fresh, step);
+                break; // the long-lived font is now known to be off; later differences are consequences
+            }
+            if panicked {
+                cx.class("both-panicked-identically");
+                if cx.verbose {
+                    eprintln!("identical panic on long-lived and fresh font: font={} op={} :: {}", name, op.label(), got.replace('\n', " "));
+                }
+                cx.class(&format!("both-panicked-identically:{}", got.replace('\n', " ").chars().take(120).collect::<String>()));
+                break; // the long-lived font may be left half-updated by the unwinding
+            }
+            history.push(op);
+        }
+        // classes about the history as a whole
+        if let Some(g) = gen.as_ref() {
+            self.gen_history_classes(cx, g, &history, &gen_raw_tuples);
+            if g.far_applied {
+                cx.class("gen:coverage-tables-65536-bytes-apart");
+            }
+        }
+        let _ = violated;
+        cx.class(&format!("history:{:?}", class));
+        if real_fv {
+            cx.class("history:real-font-with-gsub-feature-variations");
+        }
+        if history.len() >= 2 && history.iter().any(|h| *h != history[0]) {
+            cx.class("history:two-or-more-distinct-calls");
+        }
+        if any_hit_after_different_args && compared >= 2 {
+            let mut h = hash_bytes(bytes);
+            for op in &history {
+                h = mix(h, hash_str(&op.label()));
+            }
+            cx.nontrivial(h);
+        }
+        if cx.want_sample() && history.len() >= 3 {
+            cx.sample(J::obj(vec![
+                ("font", J::s(name.clone())),
+                ("class", J::s(format!("{:?}", class))),
+                ("tuples", J::s(format!("{:?}", env.tuples))),
+                ("history", J::A(history.iter().take(12).map(|o| J::s(o.label())).collect())),
+                ("ops", J::U(history.len() as u64)),
+            ]));
+        }
+    }
+
+    fn gen_self_check(&self, cx: &mut Ctx, g: &GenFont, env: &Env<'_>, s: &ShapeArgs, raws: &[Vec<i16>], fresh: &str) {
+        if !parse_shape_ok(fresh) {
+            cx.class("gen:fresh-shape-not-ok");
+            return;
+        }
+        // only texts fully inside the modelled core (mapped letters and space)
+        if s.text.chars().any(|c| !(c == ' ' || ('a'..='l').contains(&c))) {
+            return;
+        }
+        let feat = match &s.feat {
+            Feat::Mask(b) => c03_gen::Feat::Mask(mask_tags(*b)),
+            Feat::Custom(v) => c03_gen::Feat::Custom(v.iter().map(|x| x.0).collect()),
+        };
+        let tuple = s.tuple.and_then(|i| raws.get(i)).map(|v| v.as_slice());
+        let expect = g.model_shape(&s.text, s.script, s.lang, &feat, tuple, s.kerning);
+        let infos = match env.arg_infos(s) {
+            Some(i) => i,
+            None => return,
+        };
+        if run_of(&infos) == expect {
+            cx.class("gen:fresh-agrees-with-model");
+        } else {
+            cx.class("gen:fresh-disagrees-with-model");
+            if !self.model_mismatch_flag.replace(true) {
+                cx.inconclusive("gen:model-mismatch");
+            }
+            if cx.verbose {
+                eprintln!("model mismatch: {:?}\n expect {:?}\n got    {:?}\n gsub {:?}\n gpos {:?}\n tuple {:?} kern {:?}", s, expect, run_of(&infos), g.gsub, g.gpos, tuple, g.kern_pairs);
+            }
+        }
+    }
+
+    /// Did the history put two different tuples behind one (script, lang, features) key, such that
+    /// the description says the results must differ?
+    fn gen_history_classes(&self, cx: &mut Ctx, g: &GenFont, history: &[Op], raws: &[Vec<i16>]) {
+        let shapes: Vec<&ShapeArgs> = history
+            .iter()
+            .filter_map(|o| match o {
+                Op::Shape(s) => Some(s),
+                _ => None,
+            })
+            .collect();
+        let mut gsub_pair = false;
+        let mut gpos_pair = false;
+        for (i, a) in shapes.iter().enumerate() {
+            for b in &shapes[..i] {
+                if a.script == b.script && a.lang == b.lang && a.feat == b.feat && a.tuple != b.tuple {
+                    let ta = a.tuple.and_then(|i| raws.get(i)).map(|v| v.as_slice());
+                    let tb = b.tuple.and_then(|i| raws.get(i)).map(|v| v.as_slice());
+                    let feat = match &a.feat {
+                        Feat::Mask(m) => c03_gen::Feat::Mask(mask_tags(*m)),
+                        Feat::Custom(v) => c03_gen::Feat::Custom(v.iter().map(|x| x.0).collect()),
+                    };
+                    // same text under both tuples: must the run differ?
+                    let text: String = a.text.chars().filter(|c| *c == ' ' || ('a'..='l').contains(c)).collect();
+                    let ra = g.model_shape(&text, a.script, a.lang, &feat, ta, a.kerning);
+                    let rb = g.model_shape(&text, a.script, a.lang, &feat, tb, a.kerning);
+                    if ra.iter().map(|x| x.0).ne(rb.iter().map(|x| x.0)) {
+                        gsub_pair = true;
+                        if matches!(a.feat, Feat::Mask(_)) {
+                            cx.class("fv:gsub-mask-two-tuples-must-differ");
+                        }
+                    }
+                    if ra.iter().map(|x| x.1).ne(rb.iter().map(|x| x.1)) {
+                        gpos_pair = true;
+                    }
+                }
+            }
+        }
+        if gsub_pair {
+            cx.class("fv:gsub-two-tuples-must-differ");
+        }
+        if gpos_pair {
+            cx.class("fv:gpos-two-tuples-must-differ");
+        }
+    }
+
+    /// Triage a difference: find a minimal (predecessor; probe) pair against the real code, minimise
+    /// the argument difference, and report with a signature naming the pair of operation kinds and
+    /// the arguments that have to differ.
+    #[allow(clippy::too_many_arguments)]
+    fn report(&self, cx: &mut Ctx, bytes: &[u8], name: &str, class: FontClass, env: &Env<'_>, history: &[Op], probe: &Op, got: &str, fresh: &str, step: usize) {
+        let reproduces = |pre: &[Op]| -> Option<String> {
+            let mut f = load_font(bytes)?;
+            for h in pre {
+                let _ = quiet(|| env.run(&mut f, h));
+            }
+            let r = quiet(|| env.run(&mut f, probe)).unwrap_or_else(|e| e);
+            if r != fresh {
+                Some(r)
+            } else {
+                None
+            }
+        };
+        // 1. a single predecessor?
+        let mut minimal: Option<(Op, String)> = None;
+        for h in history.iter().rev() {
+            if let Some(r) = reproduces(std::slice::from_ref(h)) {
+                minimal = Some((h.clone(), r));
+                break;
+            }
+        }
+        let shorten = |s: &str| -> String { compact(s) };
+        let (sig, detail) = match minimal {
+            Some((mut h, mut r)) => {
+                // 2. make the predecessor as similar to the probe as possible
+                let nfields = probe.fields().len();
+                if h.kind() == probe.kind() {
+                    for i in 0..nfields {
+                        let mut h2 = h.clone();
+                        if h2.copy_field(probe, i) && h2 != h && h2 != *probe {
+                            if let Some(r2) = reproduces(std::slice::from_ref(&h2)) {
+                                h = h2;
+                                r = r2;
+                            }
+                        }
+                    }
+                }
+                let differing: Vec<&str> = if h.kind() == probe.kind() {
+                    (0..nfields)
+                        .filter(|&i| {
+                            let mut h2 = h.clone();
+                            h2.copy_field(probe, i);
+                            h2 != h
+                        })
+                        .map(|i| probe.fields()[i])
+                        .collect()
+                } else {
+                    Vec::new()
+                };
+                let sig = if h.kind() == probe.kind() { format!("{}<-{}:{}", probe.kind_refined(), h.kind_refined(), differing.join("+")) } else { format!("{}<-{}", probe.kind_refined(), h.kind_refined()) };
+                (
+                    sig,
+                    vec![
+                        ("minimal_history", J::A(vec![J::s(h.label())])),
+                        ("probe", J::s(probe.label())),
+                        ("after_history", J::s(shorten(&r))),
+                        ("on_fresh_font", J::s(shorten(fresh))),
+                    ],
+                )
+            }
+            None => (
+                format!("{}:needs-longer-history", probe.kind_refined()),
+                vec![
+                    ("history", J::A(history.iter().map(|o| J::s(o.label())).collect())),
+                    ("probe", J::s(probe.label())),
+                    ("after_history", J::s(shorten(got))),
+                    ("on_fresh_font", J::s(shorten(fresh))),
+                ],
+            ),
+        };
+        let mut d = detail;
+        d.push(("font", J::s(name)));
+        d.push(("font_class", J::s(format!("{:?}", class))));
+        d.push(("tuples", J::s(format!("{:?}", env.tuples))));
+        d.push(("step", J::U(step as u64)));
+        if class == FontClass::Generated && bytes.len() <= 8000 {
+            d.push(("font_bytes", J::hex(bytes)));
+        }
+        cx.violation("history-differs", &sig, J::obj(d));
     }
 }
 
 impl Prop for C03 {
-    fn case(&mut self, cx: &mut Ctx, _rng: &mut Rng) {
-        cx.inconclusive("not-implemented");
+    fn case(&mut self, cx: &mut Ctx, rng: &mut Rng) {
+        let mode = cx.mode.clone();
+        match mode.as_str() {
+            "pure" => self.pure.case(cx, rng),
+            "outline" => self.outline.case(cx, rng),
+            "gen" => self.history_case(cx, rng, FontClass::Generated),
+            "shaping" => self.history_case(cx, rng, FontClass::Shaping),
+            "variable" => self.history_case(cx, rng, FontClass::Variable),
+            "images" => self.history_case(cx, rng, FontClass::Images),
+            "any" => self.history_case(cx, rng, FontClass::Any),
+            "faulted" => self.history_case(cx, rng, FontClass::Faulted),
+            _ => match rng.below(100) {
+                0..=8 => self.pure.case(cx, rng),
+                9..=11 => self.outline.case(cx, rng),
+                12..=39 => self.history_case(cx, rng, FontClass::Generated),
+                40..=71 => self.history_case(cx, rng, FontClass::Shaping),
+                72..=83 => self.history_case(cx, rng, FontClass::Variable),
+                84..=89 => self.history_case(cx, rng, FontClass::Images),
+                90..=94 => self.history_case(cx, rng, FontClass::Faulted),
+                _ => self.history_case(cx, rng, FontClass::Any),
+            },
+        }
+    }
+
+    /// Finite sub-space enumerated completely: for every seed font, every ordered pair of
+    /// `lookup_glyph_index(U+25CC, presentation, vs)` calls (12 x 12 argument combinations).
+    fn exhaustive(&mut self, cx: &mut Ctx, shard: u64, of: u64) {
+        if cx.mode == "pure" {
+            return;
+        }
+        let mut combos = Vec::new();
+        for required in [false, true] {
+            for vs in VS_ALL {
+                combos.push(Op::Lookup { ch: DOTTED_CIRCLE, required, vs: *vs });
+            }
+        }
+        for (i, f) in self.fonts.iter().enumerate() {
+            if (i as u64) % of.max(1) != shard {
+                continue;
+            }
+            if f.data.len() > 600_000 {
+                continue;
+            }
+            let env = Env::new(&f.data, Vec::new());
+            let fresh: Vec<String> = combos
+                .iter()
+                .map(|op| match load_font(&f.data) {
+                    Some(mut font) => quiet(|| env.run(&mut font, op)).unwrap_or_else(|e| e),
+                    None => String::new(),
+                })
+                .collect();
+            for h in &combos {
+                for (pi, probe) in combos.iter().enumerate() {
+                    let mut font = match load_font(&f.data) {
+                        Some(x) => x,
+                        None => continue,
+                    };
+                    let _ = quiet(|| env.run(&mut font, h));
+                    let got = quiet(|| env.run(&mut font, probe)).unwrap_or_else(|e| e);
+                    cx.class("exhaustive:dotted-circle-pair");
+                    if got != fresh[pi] {
+                        self.report(cx, &f.data, &f.name, FontClass::Shaping, &env, std::slice::from_ref(h), probe, &got, &fresh[pi], 1);
+                    }
+                }
+            }
+        }
     }
 }
